@@ -22,13 +22,15 @@ from ref import b64 as rb, jws as rjws, keys as rk, selftest
 LEVEL = "fault_enumeration"
 RULE = ("base token = generated signing plan (14 algs x key classes x compact/flattened/general x b64 absent/true/false x "
         "header placement x payload <= 48 octets) minted by joserfc or by the reference; faults enumerated per base token: "
-        "every single-bit flip of the decoded protected header, payload and signature, every signature truncation length, "
+        "every single-bit flip of the decoded protected header, payload and signature, every signature truncation length (and 1-3 octets "
+        "from the front; RSA base tokens whose signature starts with a zero octet are found by construction), "
         "extension by 1-3 octets and doubling, pairs of flips (sampled), every segment spliced from a second valid token, "
         "structural JSON edits (empty/missing signature list, one of several signatures corrupted, forged entry appended, "
         "swapped signatures, dropped protected member, shadowing unprotected alg, unprotected b64, flattened<->general), key "
         "substitution and alg=none variants, through every verification entry point (incl. extract+validate with another token extracted "
         "in between, a caller-supplied payload other than the signed one, and '+again': the same token verified a second time after the "
-        "application edited the object the first call returned). A (token, fault) pair is non-trivial "
+        "application edited the object the first call returned; key given as key, key set with kid, callable or single-key set without kid). "
+        "A (token, fault) pair is non-trivial "
         "when the fault changes an octet of the signing input, the signature, the signature list or the key; distinct = "
         "digest of (alg, serialization, b64, entry point, fault descriptor).")
 ASSUMPTIONS = ["unforgeability of the primitives is assumed: a fault that yields another valid signature is judged by the reference, not assumed invalid",
